@@ -30,10 +30,20 @@ def mkflow(ix, site, local_types=None, which=0, tab=None, env=None,
                 if '%s::=%s' % (f.module.relpath, nm) not in fl.known and nm not in fl.conv.env:
                     fl.conv.env[nm] = Conv(fl.tab, {}, canon).expr(st.value)
     fl.run()
+    if getattr(fl, 'unfollowed', None):
+        UNFOLLOWED.setdefault(f.site, set()).update(fl.unfollowed)
     return fl
 
 
+# site -> helpers (new to the reviewed tree) that the flow of that function could not follow
+UNFOLLOWED = {}
+
+
 def _numeric_literal(n):
+    if isinstance(n, (ast.Tuple, ast.List)):
+        # a literal tuple / list of words or numbers (e.g. the boolean words of the parser)
+        return bool(n.elts) and all(_numeric_literal(e) or (isinstance(e, ast.Constant) and isinstance(e.value, str))
+                                    for e in n.elts)
     if isinstance(n, ast.Constant):
         return isinstance(n.value, (int, float)) and not isinstance(n.value, bool)
     if isinstance(n, ast.UnaryOp) and isinstance(n.op, (ast.USub, ast.UAdd)):
@@ -330,8 +340,16 @@ def need(R, oid, rule, site, stmt, f, patterns, binding=None, loc=None, under=No
     sits under an `if` the pattern does not itself contain - unless the test
     matches one of the patterns in `under` (None: any enclosing condition is a
     deviation; '*': not checked).  Returns the binding or None."""
-    from .pattern import find, parse_pattern, _match
+    from .pattern import find, parse_pattern, _match, EXTRA_DEFS
     nodes = []
+    # module-level constants that are new to the reviewed tree stand for their value
+    EXTRA_DEFS.clear()
+    kn = known_functions()
+    if kn is not None:
+        for st in f.module.tree.body:
+            if isinstance(st, ast.Assign) and len(st.targets) == 1 and isinstance(st.targets[0], ast.Name) and \
+                    '%s::=%s' % (f.module.relpath, st.targets[0].id) not in kn:
+                EXTRA_DEFS[st.targets[0].id] = st.value
     b, missing = find(f.node, patterns, binding, nodes_out=nodes)
     if b is None and binding is None:
         # the statements may have been moved into a helper that is new to the reviewed tree: look there
